@@ -12,6 +12,7 @@ from mc.props import C12
 R = (0x00, 0x01, 0x02, 0x06, 0x09, 0x0A, 0x0C, 0x0F, 0x10, 0x12, 0x16, 0xFF, 0x28, 0x29, 0x7F, 0x80)
 ASCII = ("1", ".", "(", ")", "*", "x", "\n")
 STATES = (None,) + autox.DECODER_NAMES
+_QUICK = True
 PRIME_QUICK = (1, 6)
 PRIME_THOROUGH = (1, 2, 3, 5, 8, 13, 21, 34, 64)
 
@@ -147,8 +148,45 @@ def _work_ascii(task) -> core.Part:
     return p
 
 
+def _work_clocks(task) -> core.Part:
+    """Well-formed messages whose clocks sit at the ends of the representable range (year 1 / 9999, deviations up to
+    +-720) in every date-time position: arithmetic on the decoded clock must not escape as an exception."""
+    position, = task
+    from mc.props import C10
+
+    p = core.Part()
+    inputs = []
+    for y, mo, d in ((1, 1, 1), (1, 1, 2), (9999, 12, 31), (9999, 12, 30), (2024, 2, 29)):
+        for (h, mi, sec) in ((0, 0, 0), (0, 35, 30), (11, 59, 59), (12, 0, 0), (23, 24, 30), (23, 59, 59)):
+            for dev in (None, -720, -60, -1, 0, 1, 60, 720):
+                for hund in (0xFF, 0, 99):
+                    f = (y, mo, d, h, mi, sec, hund, dev, 0, 0xFF)
+                    for _, _, msg in C10.messages_at(position, f):
+                        inputs.append(msg)
+    inputs = list(dict.fromkeys(inputs))
+    p.add("nontrivial", len(inputs))
+    _drive(p, inputs, f"extreme clock at {position}")
+    return p
+
+
+def _work_words(task) -> core.Part:
+    """'Magic' words harvested from the source under test, alone and inside P1-looking text, in every decoder state."""
+    lo, step = task
+    from mc import cosemx
+
+    p = core.Part()
+    inputs = []
+    for w in cosemx.code_words(24)[lo::step * (3 if _QUICK else 1)]:
+        for form in (w, "1-0:1.8.0(" + w + ")\r\n", w + "(1)\r\n", "1-0:1.8.0(1*" + w + ")\r\n", "0-0:1.0.0(" + w + ")\r\n"):
+            inputs.append(form.encode("ascii", "replace"))
+    p.add("nontrivial", len(inputs))
+    _drive(p, inputs, "source word")
+    return p
+
+
 def main(run: core.Run) -> int:
-    q = run.quick
+    global _QUICK
+    q = _QUICK = run.quick
     run.rule = ("inputs: every truncation and every 1-octet substitution (16 structural values, b+-1, b^1) of each genuine message of the pool" + ("" if q else ", 2-octet substitutions at structural positions") +
                 "; every ASCII string <=N over {1 . ( ) * x LF}; each in each of the 8 AutoDecoder states (reached through the public API) and through both entry points, under the call budget 400*n+40000; "
                 "non-trivial = distinct inputs")
@@ -172,10 +210,13 @@ def main(run: core.Run) -> int:
     NA, ND = (4, 6) if q else (5, 7)
     at = [(c, NA, True) for c in ASCII] + [(c, ND, False) for c in ASCII]
     run.merge(par.pmap(_work_ascii, at, seed=run.seed))
+    run.merge(par.pmap(_work_words, [(i, 16) for i in range(16)], seed=run.seed))
+    from mc.props import C10
+    run.merge(par.pmap(_work_clocks, [(pos,) for pos in C10.POSITIONS], seed=run.seed))
     tot = run.total
     tot.sample({"message": "ref.kaifa.list1_1320W.body", "input": "02010600000528", "states": 8, "entries": 2, "budget_calls": budget.budget_for(7)})
     tot.sample({"ascii": "1.0(1)x", "expected": "dict or None within 42 800 calls"})
-    run.bounds = {"messages": len(pick), "histories": "each remembered decoder reached by k genuine messages, k in " + str(list(PRIME_QUICK if q else PRIME_THOROUGH)), "ascii_via_autodecoder": f"<= {NA}", "ascii_via_parse_p1_readout_content": f"<= {ND}", "max_calls_observed": tot.mx.get("max_calls", 0)}
+    run.bounds = {"messages": len(pick), "histories": "each remembered decoder reached by k genuine messages, k in " + str(list(PRIME_QUICK if q else PRIME_THOROUGH)), "extreme_clocks": "well-formed messages with clocks at year 1 / 9999 x 6 times x 8 deviations x 3 hundredths in all 6 date-time positions", "ascii_via_autodecoder": f"<= {NA}", "ascii_via_parse_p1_readout_content": f"<= {ND}", "max_calls_observed": tot.mx.get("max_calls", 0)}
     run.assumptions = ["time/memory bound is decided through the deterministic call-count budget (every allocation in these code paths happens inside a counted call) with an address-space limit as backstop",
                        "bytes outside the substitution alphabet are reached only through b+-1 / b^1"]
     ex = tot.c.get("executions", 0)
